@@ -156,6 +156,9 @@ func (f *TLSFarm) ServerCert(identity, ip string) tls.Certificate {
 		return c
 	}
 	key := "p384a"
+	if strings.HasSuffix(identity, "+rsa") { // the same identity with an RSA server key
+		key, identity = "rsa2048b", strings.TrimSuffix(identity, "+rsa")
+	}
 	spec := CertSpec{CN: "crypki " + ip, Key: key, Serial: 31}
 	san := net.ParseIP(ip)
 	now := time.Now()
